@@ -30,8 +30,10 @@ pub struct RichOpts {
     pub time: bool,
 }
 
-pub const ISSUER_KEYS: [(&str, &str); 3] = [("K1", "ES256"), ("KE1", "EdDSA"), ("S1", "HS256")];
-pub const HOLDER_KEYS: [(&str, &str); 2] = [("H1", "ES256"), ("HE1", "EdDSA")];
+pub const ISSUER_KEYS: [(&str, &str); 12] = [("K1", "ES256"), ("KE1", "EdDSA"), ("S1", "HS256"), ("K1", "ES256"), ("KE1", "EdDSA"), ("S1", "HS256"),
+    // every other algorithm jsonwebtoken offers for these key types (RSA signing is slow: one draw in four)
+    ("S1", "HS384"), ("S2", "HS512"), ("KP1", "ES384"), ("KR1", "RS256"), ("KR1", "PS256"), ("KR2", "RS512")];
+pub const HOLDER_KEYS: [(&str, &str); 5] = [("H1", "ES256"), ("HE1", "EdDSA"), ("H1", "ES256"), ("HE1", "EdDSA"), ("HR1", "PS384")];
 
 fn select_everything(claims: &serde_json::Value) -> serde_json::Map<String, serde_json::Value> {
     fn all(v: &serde_json::Value) -> serde_json::Value {
@@ -52,8 +54,8 @@ pub fn run(ctx: &mut Ctx, o: &RichOpts) {
     for _ in 0..o.n {
         ctx.reset("rich", "");
         let fmt = if r.gen_bool(0.5) { Fmt::Compact } else { Fmt::Json };
-        let (key, alg) = ISSUER_KEYS[r.gen_range(0..3)];
-        let hk = match r.gen_range(if o.kb_on { 1 } else { 0 }..3) {
+        let (key, alg) = ISSUER_KEYS[r.gen_range(0..ISSUER_KEYS.len())];
+        let hk = match r.gen_range(if o.kb_on { 1 } else { 0 }..HOLDER_KEYS.len() + 1) {
             0 => None,
             i => Some(HOLDER_KEYS[i - 1]),
         };
